@@ -356,7 +356,7 @@ def pickled_wspec(root, obj):
         if wf is None:
             return "NoW"
         nm = model_name(root, wf)
-        return f"(StdW {nm})" if nm else f"(StdW ?{wf})"
+        return f"(StdW {nm})" if nm else "(StdW (Base (Other 0)))"      # a path the model has no name for
     prop = getattr(obj, "proposal", None)
     flow = getattr(prop, "flow", None)
     n = getattr(flow, "_resume_n_models", None)
@@ -507,7 +507,7 @@ def live_wspec(root, ns):
     prop = getattr(ns, "_flow_proposal", None)
     if prop is not None:
         wf = getattr(getattr(prop, "flow", None), "weights_file", None)
-        return "NoW" if wf is None else f"(StdW {model_name(root, wf)})"
+        return "NoW" if wf is None else f"(StdW {model_name(root, wf) or '(Base (Other 0))'})"
     flow = getattr(getattr(ns, "proposal", None), "flow", None)
     if flow is not None and getattr(flow, "models", None) is not None:
         return f"(InsW {len(flow.models)})"
